@@ -419,7 +419,7 @@ SPECS['C14'] = dict(
                  'a moved-from Array is only destroyed or assigned to',
                  'front()/back() only on non-empty arrays; pointer+length adoption (copy=false) is given malloc storage holding constructed elements'],
     manifest=dict(engine='h_array', text='Lock-step comparison with a std::vector model after every operation plus the object-lifetime registry and ASan/LSan, over seeded histories '
-                  'that exercise every construction path including pointer+length for class types and length 0.',
+                  'that exercise every construction path including pointer+length for class types and length 0, and arrays of more than 2^31 / 2^32 elements through every copy, move and resize path.',
                   note=SAN_NOTE, technique='runtime monitoring: lock-step reference model + lifetime registry under ASan/UBSan/LSan'))
 
 
@@ -763,7 +763,8 @@ SPECS['C11'] = dict(
                  'large histories: every rule is a necessary condition of linearizability (such a check can miss non-linearizable histories that satisfy all four rules); small histories: complete search, the sequential SubjectRouter is the specification'],
     manifest=dict(engine='h_crouter', text='Offline checker over stamped call/return/callback events of real multi-threaded histories: four necessary conditions of linearizability decided exactly per notify '
                   '(many tiny interval problems instead of one NP-hard search) for large histories, and a complete linearizability search against the sequential SubjectRouter for tens of thousands of small '
-                  'histories, in monitored and ASan builds.',
+                  'histories, in monitored and ASan builds; plus modes with exactly known answers: fast churn over a partitioned key space (throwing observers, stale handles), a crowd of more than 255 '
+                  'simultaneous deliveries followed by a write, and an observer of one router forwarding into a second one that is being written to.',
                   note='Schedules sampled with delays inside the router\'s lock and CPU pinning; trusted: the stamp counter and the client-boundary recording.',
                   technique='runtime monitoring: offline history checker (interval linearizability conditions) over stamped events'))
 
